@@ -302,7 +302,19 @@ def run_real(sc, line_preempt=None, wall_s=20.0, max_steps=6000):
     mask = sc.get("cbs", ALL)
     kw = {n: mk(n) for i, n in enumerate(CBS) if (mask >> i) & 1}
     url = "wss://sim.test/" if sc.get("ssl") else "ws://sim.test/"
-    app = websocket.WebSocketApp(url, **kw)
+    if sc.get("late_cbs"):
+        # callbacks installed by attribute assignment AFTER construction (a documented way of setting them); with
+        # "late_cbs" = "replace" the constructor first gets decoys that must never fire
+        if sc["late_cbs"] == "replace":
+            def decoy(*a):
+                s.emit("cbtext", "cb:DECOY:-")
+            app = websocket.WebSocketApp(url, **{n: decoy for n in kw})
+        else:
+            app = websocket.WebSocketApp(url)
+        for n, f in kw.items():
+            setattr(app, n, f)
+    else:
+        app = websocket.WebSocketApp(url, **kw)
     holder["app"] = app
     iv, to = sc.get("iv", 0), sc.get("to")
     rf = dict(ping_interval=(simsched.secs(iv) if iv else 0),
